@@ -125,7 +125,8 @@ TV = {1: 'glm/detail/type_vec1.inl', 2: 'glm/detail/type_vec2.inl', 3: 'glm/deta
 
 def cexpr_binop(tag, op, a, b):
     if tag in FLOAT_TYPES:
-        return '(%s %s %s)' % (a, op, b)
+        # same abstraction as the extracted code (uf_float): "the same IEEE operation on the same operands"
+        return 'SPEC_F%s%s(%s, %s)' % ({'+': 'ADD', '-': 'SUB', '*': 'MUL', '/': 'DIV'}[op], '32' if tag == 'f32' else '64', a, b)
     cpp, n, sg = INT_TYPES[tag]
     U = 'u%d' % n
     W = 'u%d' % max(n, 32)
@@ -222,7 +223,7 @@ for tag in ['f32', 'f64', 'i32', 'u32', 'i8', 'u16', 'i64', 'u64']:
         for nm, opx, one in (('preinc', '++r', '+'), ('predec', '--r', '-'), ('postinc', 'r++', '+'), ('postdec', 'r--', '-')):
             name = 'glm_op_%s_%s_v%d' % (nm, tag, L)
             d.shim(name, 'void', ins, 'auto r = %s; %s; %s' % (vec_make(L, tag, 'a'), opx, vec_store(L, 'r')), outs=[(T, 'out', L)])
-            one_e = (lambda a: '(%s %s 1.0%s)' % (a, one, 'f' if tag == 'f32' else '')) if tag in FLOAT_TYPES else \
+            one_e = (lambda a: 'SPEC_F%s%s(%s, 1.0%s)' % ('ADD' if one == '+' else 'SUB', '32' if tag == 'f32' else '64', a, 'f' if tag == 'f32' else '')) if tag in FLOAT_TYPES else \
                 (lambda a: '(u%d)((u%d)%s %s 1)' % (INT_TYPES[tag][1], max(32, INT_TYPES[tag][1]), a, one))
             contracts.append((name, '%s  operator%s on vec<%d,%s>' % (TV[L], opx.replace('r', ''), L, T),
                               dict(ensures=[('comp%d' % i, beq(tag, 'out[%d]' % i, one_e(A[i]))) for i in range(L)],
@@ -302,7 +303,7 @@ for (Cn, Rn) in ((2, 2), (2, 3), (3, 3), (4, 3), (4, 4)):
 for name, drv_ in drivers.items():
     P.build(drv_, 'flat', tag=name)
 for fn, real, kw in contracts:
-    P.contract(fn, real.strip(), unwind=kw.pop('unwind', 2), uf_float=('fmul', 'fdiv', 'sqrt', 'fmod', 'frem'), timeout=120, **kw)
+    P.contract(fn, real.strip(), unwind=kw.pop('unwind', 2), uf_float=('fmul', 'fdiv', 'fadd', 'fsub', 'sqrt', 'fmod', 'frem'), timeout=120, **kw)
 
 P.level_text = ('for every generated (function x argument shape x length 1..4 x element type x qualifier) instantiation, component i of the '
                 'vector result is proved bit-identical to the scalar overload (or built-in operator) applied to component i, for all argument '
